@@ -35,6 +35,9 @@ import XotModel.Lemmas.FspecAllUnwrap
 import XotModel.Lemmas.FspecAllNormal
 import XotModel.Lemmas.FspecAllRepl6
 import XotModel.Lemmas.FspecAllFrame2
+import XotModel.Lemmas.FspecStrComposite
+import XotModel.Lemmas.FspecFrameComposite
+import XotModel.Lemmas.FspecFrameReplace
 
 namespace XotModel.Props
 open XotModel XotModel.Spec
@@ -1084,6 +1087,55 @@ example :
         .node (.text ['z']) [], .node (.element 6) []]] := by
   decide
 
+/-! ### String values after the composite calls (every forest with the invariant, no `Forest.Normal`)
+
+  As for the moves (`C05_move_keeps_character_data`): `plainUnwrap n f` / `plainReplace a b f` (Lemmas/FspecStrComposite.lean)
+  are the same edits on the plain ordered-tree model with consolidation off - the wrapper is replaced by its normal
+  children, resp. the replacing subtree is cut and put where the replaced one stood - nothing merged.  After a
+  successful call every non-text node, in particular every ancestor of the touched places, has exactly the string
+  value the unmerged edit gives it, and the non-text nodes are the same, in the same document order (the unwrapped
+  element and the replaced subtree are gone from both lists).  Whatever the two resp. three pair merges
+  (`specUnwrapP`, `specReplaceP`: three-way case included) do to the text NODES, the character DATA is where the
+  edit puts it. -/
+
+/-- ⟦C05_string_value_unwrap⟧ `element_unwrap`: every non-text node has the string value of the unmerged unwrap. -/
+theorem C05_string_value_unwrap {f : Forest} {n : Nat} (inv : f.Inv) (hok : (f.elementUnwrap n).2 = .ok) :
+    (f.elementUnwrap n).1.strValues = (plainUnwrap n f).strValues :=
+  unwrap_keeps_strValues inv hok
+
+/-- ⟦C05_string_value_replace⟧ `replace`, every geometry (replacing node parentless, elsewhere, a sibling, already
+    next to the replaced node; text or not): every non-text node has the string value of the unmerged replace. -/
+theorem C05_string_value_replace {f : Forest} {a b : Nat} (inv : f.Inv) (hok : (f.replace a b).2 = .ok) :
+    (f.replace a b).1.strValues = (plainReplace a b f).strValues :=
+  replace_keeps_strValues inv hok
+
+/-- The pair reading of unwrap itself keeps the character data (no hypothesis on the call). -/
+theorem C05_pair_unwrap_keeps_character_data {f : Forest} (inv : f.Inv) (n : Nat) :
+    (specUnwrapP n f).strValues = (plainUnwrap n f).strValues :=
+  specUnwrapP_strValues inv n
+
+/-- Non-vacuity on a forest WITH adjacent text nodes (the forest of the example above: `<e>w x <u>i j<k/>m</u> y z <v/></e>`
+    and a parentless text `r`): the string value of `e` after `element_unwrap(u)` is `wxijmyz`, after
+    `replace(u, r)` it is `wxryz`, after `replace(v, r)` it is `wxijmyzr` (and `u` keeps `ijm`) - as the unmerged
+    edits give them. -/
+example :
+    let f : Forest := { roots := [.node 0 (.element 2) [.node 1 (.text ['w']) [], .node 2 (.text ['x']) [],
+        .node 3 (.element 3) [.node 4 (.text ['i']) [], .node 5 (.text ['j']) [], .node 6 (.element 6) [],
+          .node 7 (.text ['m']) []],
+        .node 8 (.text ['y']) [], .node 9 (.text ['z']) [], .node 10 (.element 6) []], .node 11 (.text ['r']) []],
+                        next := 12, consolidation := true, everOff := true }
+    f.inv = true ∧ (f.elementUnwrap 3).2 = .ok ∧ (f.replace 3 11).2 = .ok ∧ (f.replace 10 11).2 = .ok ∧
+      (f.elementUnwrap 3).1.strValues = [(0, ['w', 'x', 'i', 'j', 'm', 'y', 'z']), (6, []), (10, [])] ∧
+      (plainUnwrap 3 f).strValues = [(0, ['w', 'x', 'i', 'j', 'm', 'y', 'z']), (6, []), (10, [])] ∧
+      (f.replace 3 11).1.strValues = [(0, ['w', 'x', 'r', 'y', 'z']), (10, [])] ∧
+      (plainReplace 3 11 f).strValues = [(0, ['w', 'x', 'r', 'y', 'z']), (10, [])] ∧
+      (f.replace 10 11).1.strValues =
+        [(0, ['w', 'x', 'i', 'j', 'm', 'y', 'z', 'r']), (3, ['i', 'j', 'm']), (6, [])] ∧
+      (plainReplace 10 11 f).strValues =
+        [(0, ['w', 'x', 'i', 'j', 'm', 'y', 'z', 'r']), (3, ['i', 'j', 'm']), (6, [])] ∧
+      (plainReplace 10 11 f).content ≠ (f.replace 10 11).1.content := by
+  decide
+
 /-! ### The frame theorems without `Forest.Normal`
 
   For EVERY forest with the invariant: a node outside the moved subtree whose parent is neither
@@ -1157,4 +1209,137 @@ example :
       ((f.insertAfter 3 2).1.ctx? 7).map HTree.Ctx.shape = (f.ctx? 7).map HTree.Ctx.shape := by
   decide
 
+/-! ### The frames of `detach`, `element_unwrap`, `element_wrap` without `Forest.Normal`
+
+  For EVERY forest with the invariant (Lemmas/FspecFrameComposite.lean, from the pair readings `specDetachP`, `specUnwrapP`
+  and `specWrap`, each ONE edit of one child list plus - for detach and a parentless wrap - a new parentless tree at the
+  end of the list):
+    detach(n)          a node outside the subtree whose parent is not the parent `n` leaves keeps its place;
+    element_unwrap(n)  (`n` has the parent `p`) a node whose parent is neither `p` nor `n` keeps its place - in particular
+                       everything deeper inside `n`; a parentless `n` that is accepted has no normal child and the call IS
+                       `remove(n)` (`C05_unwrap_parentless`), so `C05_pair_frame_remove` applies;
+    element_wrap(n)    a node whose parent is not the parent of `n` keeps its place - everything inside `n` included
+                       (`n` itself gets the wrapper as parent); for a parentless `n` every node that has a parent does.
+  `replace` on forests with adjacent text: `C05_pair_frame_replace` below (every geometry; `C05_frame_replace` above is
+  the same statement under `Forest.Normal`): when the replacing node already stands next to the replaced one the call is
+  `remove` (`C05_pair_frame_replace_adjacent`), otherwise the pair reading `specReplaceP` is framed
+  (`C05_frame_specReplaceP`). -/
+
+theorem C05_frame_specDetachP {f : Forest} {n : Nat} {t : HTree} (inv : f.Inv)
+    (hg : f.get? n = some t) {x : Nat} {cx : HTree.Ctx} (hx : f.ctx? x = some cx)
+    (h1 : some cx.parent ≠ f.parent? n) (h3 : cx.parent ∉ HTree.handles t) (h4 : x ∉ HTree.handles t) :
+    ∃ cx', (specDetachP n f).ctx? x = some cx' ∧ cx'.shape = cx.shape :=
+  frame_specDetachP inv hg hx h1 h3 h4
+
+theorem C05_pair_frame_detach {f : Forest} {n : Nat} {t : HTree} (inv : f.Inv)
+    (hg : f.get? n = some t) {x : Nat} {cx : HTree.Ctx} (hx : f.ctx? x = some cx)
+    (h1 : some cx.parent ≠ f.parent? n) (h3 : cx.parent ∉ HTree.handles t) (h4 : x ∉ HTree.handles t) :
+    ∃ cx', (f.detach n).1.ctx? x = some cx' ∧ cx'.shape = cx.shape :=
+  detach_frame_all inv hg hx h1 h3 h4
+
+theorem C05_frame_specUnwrapP {f : Forest} {n p : Nat} (inv : f.Inv) (hp : f.parent? n = some p)
+    {x : Nat} {cx : HTree.Ctx} (hx : f.ctx? x = some cx) (h1 : cx.parent ≠ p) (h2 : cx.parent ≠ n) :
+    ∃ cx', (specUnwrapP n f).ctx? x = some cx' ∧ cx'.shape = cx.shape :=
+  frame_specUnwrapP inv hp hx h1 h2
+
+theorem C05_pair_frame_unwrap {f : Forest} {n p : Nat} (inv : f.Inv) (hok : (f.elementUnwrap n).2 = .ok)
+    (hp : f.parent? n = some p) {x : Nat} {cx : HTree.Ctx} (hx : f.ctx? x = some cx)
+    (h1 : cx.parent ≠ p) (h2 : cx.parent ≠ n) :
+    ∃ cx', (f.elementUnwrap n).1.ctx? x = some cx' ∧ cx'.shape = cx.shape :=
+  unwrap_frame_all inv hok hp hx h1 h2
+
+theorem C05_unwrap_parentless {f : Forest} {n : Nat} (hok : (f.elementUnwrap n).2 = .ok)
+    (hp : f.parent? n = none) : f.elementUnwrap n = f.remove n :=
+  elementUnwrap_parentless hok hp
+
+theorem C05_frame_specWrap {f : Forest} {n : Nat} (name : Nat) {t : HTree} (inv : f.Inv) (hg : f.get? n = some t)
+    {x : Nat} {cx : HTree.Ctx} (hx : f.ctx? x = some cx) (h1 : some cx.parent ≠ f.parent? n) :
+    ∃ cx', (specWrap n name f).ctx? x = some cx' ∧ cx'.shape = cx.shape :=
+  frame_specWrap name inv hg hx h1
+
+theorem C05_pair_frame_wrap {f : Forest} {n name : Nat} {t : HTree} (inv : f.Inv)
+    (hok : (f.elementWrap n name).2.1 = .ok) (hg : f.get? n = some t)
+    {x : Nat} {cx : HTree.Ctx} (hx : f.ctx? x = some cx) (h1 : some cx.parent ≠ f.parent? n) :
+    ∃ cx', (f.elementWrap n name).1.ctx? x = some cx' ∧ cx'.shape = cx.shape :=
+  wrap_frame_all inv hok hg hx h1
+
+/-- `<e>w x <u>i j<k/>m</u> y z <v/></e>` (adjacent text nodes), a parentless text `r`, a second tree `<g><h/>q</g>`. -/
+def frameWitness : Forest :=
+  { roots := [.node 0 (.element 2) [.node 1 (.text ['w']) [], .node 2 (.text ['x']) [],
+        .node 3 (.element 3) [.node 4 (.text ['i']) [], .node 5 (.text ['j']) [], .node 6 (.element 6) [],
+          .node 7 (.text ['m']) []],
+        .node 8 (.text ['y']) [], .node 9 (.text ['z']) [], .node 10 (.element 6) []], .node 11 (.text ['r']) [],
+        .node 12 (.element 6) [.node 13 (.element 3) [], .node 14 (.text ['q']) []]],
+    next := 15, consolidation := true, everOff := true }
+
+/-- Non-vacuity on a forest WITH adjacent text nodes: `detach(u)` merges `x`/`y`; `element_unwrap(u)` merges `(x, i)` and
+    `(m, y)`; `element_wrap(x)` merges nothing - the element `h` under `g` keeps parent, value and siblings each time,
+    and so does `k` inside `u` under `detach(u)` and `element_wrap(u)` (`u` itself gets the wrapper 15 as parent). -/
+example : frameWitness.inv = true ∧ (frameWitness.detach 3).2 = .ok ∧ (frameWitness.elementUnwrap 3).2 = .ok ∧
+    (frameWitness.elementWrap 2 6).2.1 = .ok ∧ (frameWitness.elementWrap 3 6).2.1 = .ok ∧
+    frameWitness.parent? 3 = some 0 := by decide
+example : (frameWitness.ctx? 13).map HTree.Ctx.shape = some (12, [], .element 3, [14]) ∧
+    ((frameWitness.detach 3).1.ctx? 13).map HTree.Ctx.shape = some (12, [], .element 3, [14]) ∧
+    ((frameWitness.elementUnwrap 3).1.ctx? 13).map HTree.Ctx.shape = some (12, [], .element 3, [14]) ∧
+    ((frameWitness.elementWrap 2 6).1.ctx? 13).map HTree.Ctx.shape = some (12, [], .element 3, [14]) :=
+  ⟨by decide, by decide, by decide, by decide⟩
+example : (frameWitness.ctx? 6).map HTree.Ctx.shape = some (3, [4, 5], .element 6, [7]) ∧
+    ((frameWitness.detach 3).1.ctx? 6).map HTree.Ctx.shape = some (3, [4, 5], .element 6, [7]) ∧
+    ((frameWitness.elementWrap 3 6).1.ctx? 6).map HTree.Ctx.shape = some (3, [4, 5], .element 6, [7]) ∧
+    (frameWitness.detach 3).1.value? 2 = some (.text ['x', 'y']) ∧
+    ((frameWitness.elementWrap 3 6).1.ctx? 3).map HTree.Ctx.shape = some (15, [], .element 3, []) :=
+  ⟨by decide, by decide, by decide, by decide, by decide⟩
+
+/-- `replace` with the replacing node already next to the replaced one is `remove` (whatever the text nodes around):
+    the frame of `remove` applies, without `Forest.Normal`. -/
+theorem C05_pair_frame_replace_adjacent {f : Forest} {a b : Nat} {A : HTree} (inv : f.Inv)
+    (hok : (f.replace a b).2 = .ok) (hadj : adjacentTo f a b = true) (hA : f.get? a = some A)
+    {x : Nat} {cx : HTree.Ctx} (hx : f.ctx? x = some cx)
+    (h1 : some cx.parent ≠ f.parent? a) (h3 : cx.parent ∉ HTree.handles A) (h4 : x ∉ HTree.handles A) :
+    ∃ cx', (f.replace a b).1.ctx? x = some cx' ∧ cx'.shape = cx.shape := by
+  rw [replace_pair inv hok]
+  unfold specReplaceP
+  rw [hadj, if_pos rfl]
+  exact frame_specRemoveP inv hA hx h1 h3 h4
+
+/-- ⟦C05_pair_frame_replace⟧ **The frame of `replace` without `Forest.Normal`**: every forest with the invariant
+    (adjacent text nodes allowed), every geometry.  A node outside the replacing subtree `t` and the replaced subtree
+    `A` whose parent is neither `a`'s parent nor `b`'s old parent and lies in neither subtree keeps its parent, its
+    value and the handles of its left and right siblings.  (Replacing node next to the replaced one: the call is
+    `remove`; otherwise the pair reading `specReplaceP` - cut, put, `mergeLeftAt`, `mergeNew3At` - is framed like a move,
+    Lemmas/FspecFrameReplace.lean.) -/
+theorem C05_pair_frame_replace {f : Forest} {a b q : Nat} {A t : HTree} (inv : f.Inv)
+    (hok : (f.replace a b).2 = .ok) (hA : f.get? a = some A) (hb : f.get? b = some t)
+    (hq : f.parent? a = some q)
+    {x : Nat} {cx : HTree.Ctx} (hx : f.ctx? x = some cx)
+    (h1 : cx.parent ≠ q) (h2 : some cx.parent ≠ f.parent? b) (h3 : cx.parent ∉ HTree.handles t)
+    (h4 : x ∉ HTree.handles t) (h5 : cx.parent ∉ HTree.handles A) (h6 : x ∉ HTree.handles A) :
+    ∃ cx', (f.replace a b).1.ctx? x = some cx' ∧ cx'.shape = cx.shape :=
+  replace_frame_all inv hok hA hb hq hx h1 h2 h3 h4 h5 h6
+
+/-- The pair specification itself, replacing node not next to the replaced one. -/
+theorem C05_frame_specReplaceP {f : Forest} {a b q : Nat} {vq : Value} {l : List HTree} {A : HTree}
+    {r : List HTree} {t : HTree} (inv : f.Inv) (ra : ReplArgs f a b q vq l A r t)
+    (hnadj : adjacentTo f a b = false)
+    {x : Nat} {cx : HTree.Ctx} (hx : f.ctx? x = some cx)
+    (h1 : cx.parent ≠ q) (h2 : some cx.parent ≠ f.parent? b) (h3 : cx.parent ∉ HTree.handles t)
+    (h4 : x ∉ HTree.handles t) (h5 : cx.parent ∉ HTree.handles A) :
+    ∃ cx', (specReplaceP a b f).ctx? x = some cx' ∧ cx'.shape = cx.shape :=
+  frame_specReplaceP_far inv ra hnadj hx h1 h2 h3 h4 h5
+
+/-- Non-vacuity on a forest with adjacent text nodes: in `frameWitness` the text `y` (8) stands next to `u` (3);
+    `replace(u, y)` is accepted and `h` (13) keeps its place; `replace(v, r)` (10, 11: the parentless text `r` is merged into
+    `z`) and `replace(u, q)` (3, 14: the text `q` leaves `g`, three-way merge `x q y`) are not adjacent: `k` (6) inside `u`
+    resp. `h` keep their places. -/
+example : adjacentTo frameWitness 3 8 = true ∧ (frameWitness.replace 3 8).2 = .ok ∧
+    ((frameWitness.replace 3 8).1.ctx? 13).map HTree.Ctx.shape = some (12, [], .element 3, [14]) ∧
+    (frameWitness.replace 3 8).1.value? 2 = some (.text ['x', 'y']) ∧
+    adjacentTo frameWitness 10 11 = false ∧ (frameWitness.replace 10 11).2 = .ok ∧
+    ((frameWitness.replace 10 11).1.ctx? 6).map HTree.Ctx.shape = some (3, [4, 5], .element 6, [7]) ∧
+    ((frameWitness.replace 10 11).1.ctx? 13).map HTree.Ctx.shape = some (12, [], .element 3, [14]) ∧
+    adjacentTo frameWitness 3 11 = false ∧ (frameWitness.replace 3 11).2 = .ok ∧
+    (frameWitness.replace 3 11).1.value? 2 = some (.text ['x', 'r', 'y']) ∧
+    ((frameWitness.replace 3 11).1.ctx? 13).map HTree.Ctx.shape = some (12, [], .element 3, [14]) :=
+  ⟨by decide, by decide, by decide, by decide, by decide, by decide, by decide, by decide, by decide, by decide,
+   by decide, by decide⟩
 end XotModel.Props
